@@ -172,7 +172,11 @@ EGLines == LET W == SeqsUpTo({"a", "T", "B", "t"}, 3) IN W \cup {WithNL(w) : w \
 VARIABLES kind, expr, ast
 vars == <<kind, expr, ast>>
 
+\* explicit anchors written by the user do not change the meaning (the whole line has to match anyway): `^R$`, `^R`, `R$`
+\* -- also when R is a top-level alternation or ends in an escaped `$`
+Anchored(a, e) == CASE a = "both" -> <<"^">> \o e \o <<"$">> [] a = "left" -> <<"^">> \o e [] a = "right" -> e \o <<"$">>
 Init == \/ kind = "regex"  /\ ast \in Regexes /\ expr = Render(ast, 0)
+        \/ kind = "regex_anch" /\ ast \in L1 /\ \E a \in {"both", "left", "right"} : expr = Anchored(a, Render(ast, 0))
         \/ kind = "glob"   /\ expr \in GlobPatterns /\ ast = <<>>
         \/ kind = "cramglob" /\ expr \in CramPatterns /\ ast = <<>>
         \/ kind = "escaped" /\ expr \in EscExprs /\ ast = <<>>
@@ -185,7 +189,7 @@ Spec == Init /\ [][Next]_vars
 \* a candidate must be one line: LF only as the last token
 ValidLine(l) == \A x \in 1..(Len(l) - 1) : l[x] # NL
 \* the candidate lines and the documented verdict for each
-AllCands == CASE kind = "regex" -> RLines
+AllCands == CASE kind \in {"regex", "regex_anch"} -> RLines
            [] kind = "glob" -> Lines
            [] kind = "cramglob" -> CramLines
            [] kind = "escaped" -> (IF Decode(expr) = ERR THEN {} ELSE EscCands(expr, Decode(expr)))
@@ -194,7 +198,7 @@ AllCands == CASE kind = "regex" -> RLines
 \* every LF-terminated candidate also with a CR directly before the LF (a kept CR LF ending): the CR belongs to the line
 WithCR(l) == Front(l) \o <<"R", NL>>
 Cands == LET base == {l \in AllCands : ValidLine(l)} IN base \cup {WithCR(l) : l \in {x \in base : Len(x) > 0 /\ x[Len(x)] = NL}}
-Expected(line) == CASE kind = "regex" -> RegexMatch(ast, line)
+Expected(line) == CASE kind \in {"regex", "regex_anch"} -> RegexMatch(ast, line)
                     [] kind = "glob" -> GlobMatch(expr, TrimNL(line))
                     [] kind = "cramglob" -> CramGlobMatch(expr, TrimNL(line))
                     [] kind = "escaped" -> EscapedMatch(expr, line)
